@@ -259,6 +259,8 @@ def run_adv(seed: int, work: Path, trace_path: Path, *, steps: int = 40, mix: Op
         if part == "adv":
             gens.append(adv.Adversary(seed * 7 + k, label=f"Adversary{k}", emit=emit, kinds=kinds,
                                       p_instr=p_instr if p_instr is not None else rng.choice([0.25, 0.45, 0.7])))
+        elif part == "charge":
+            gens.append(adv.ChargeDriver(seed * 7 + k, emit=emit))
         elif part == "queue":
             gens.append(adv.QueueDriver(seed * 7 + k, emit=emit))
         else:
